@@ -280,6 +280,136 @@ func c08FlateBomb(r *kit.Rand, size int, layers int) []byte {
 // sequences (table full without a clear code, repeated newest codes, codes
 // beyond the table) reach the decoder's table logic instead of failing at the
 // first width mismatch.
+// c08JBIG2Segments assembles an embedded JBIG2 stream segment by segment:
+// page information, generic regions (intermediate and immediate, arithmetic or
+// MMR) and generic refinement regions with arbitrary data bytes (the
+// arithmetic decoder accepts any bytes), referring to earlier, later, missing
+// or repeatedly to the same segments, with dimensions from 1 to millions.
+func c08JBIG2Segments(r *kit.Rand) []byte {
+	var out []byte
+	be32 := func(v uint32) []byte { return []byte{byte(v >> 24), byte(v >> 16), byte(v >> 8), byte(v)} }
+	segment := func(num uint32, typ byte, refs []uint32, page byte, data []byte) {
+		out = append(out, be32(num)...)
+		out = append(out, typ&0x3f)
+		if len(refs) > 4 {
+			refs = refs[:4]
+		}
+		out = append(out, byte(len(refs))<<5|byte(r.Intn(32)))
+		for _, ref := range refs {
+			switch {
+			case num <= 256:
+				out = append(out, byte(ref))
+			case num <= 65536:
+				out = append(out, byte(ref>>8), byte(ref))
+			default:
+				out = append(out, be32(ref)...)
+			}
+		}
+		out = append(out, page)
+		out = append(out, be32(uint32(len(data)))...)
+		out = append(out, data...)
+	}
+	dims := []uint32{1, 1, 2, 8, 64, 100, 1000, 4096, 65536, 1 << 20, 1 << 22}
+	dim := func() (uint32, uint32) {
+		w, h := kit.Pick(r, dims), kit.Pick(r, dims)
+		if r.Chance(2, 3) && uint64(w)*uint64(h) > 1<<25 {
+			if r.Bool() {
+				w = 1
+			} else {
+				h = 1
+			}
+		}
+		return w, h
+	}
+	regionInfo := func() []byte {
+		w, h := dim()
+		b := append(be32(w), be32(h)...)
+		b = append(b, be32(uint32(r.Intn(3)))...)
+		b = append(b, be32(uint32(r.Intn(3)))...)
+		return append(b, byte(r.Intn(5)))
+	}
+	num := uint32(0)
+	if r.Chance(1, 20) {
+		num = 300 // two-byte references
+	}
+	var regions []uint32 // segments that hold a region
+	if r.Chance(3, 4) {
+		w, h := dim()
+		d := append(be32(w), be32(h)...)
+		d = append(d, be32(0)...)
+		d = append(d, be32(0)...)
+		d = append(d, byte(r.Intn(128)), 0, 0)
+		segment(num, 48, nil, 1, d)
+		num++
+	}
+	n := 1 + r.Intn(8)
+	for i := 0; i < n; i++ {
+		data := regionInfo()
+		var refs []uint32
+		var typ byte
+		if len(regions) > 0 && r.Chance(1, 2) || r.Chance(1, 6) {
+			// generic refinement region
+			typ = kit.Pick(r, []byte{40, 42, 43})
+			tmpl := byte(r.Intn(4))
+			data = append(data, tmpl)
+			if tmpl&1 == 0 {
+				data = append(data, 0xff, 0xff, 0xff, 0xff) // AT pixels (-1,-1) (-1,-1)
+			}
+			switch r.Intn(6) {
+			case 0: // no reference: refines the page
+			case 1: // a segment that does not exist (yet)
+				refs = []uint32{num + uint32(r.Intn(3))}
+			default:
+				if len(regions) > 0 {
+					refs = []uint32{kit.Pick(r, regions)}
+					if r.Chance(1, 8) {
+						refs = append(refs, kit.Pick(r, regions))
+					}
+				}
+			}
+		} else {
+			typ = kit.Pick(r, []byte{36, 36, 38, 39})
+			mmr := r.Chance(1, 4)
+			flags := byte(r.Intn(16)) &^ 1
+			if mmr {
+				flags |= 1
+			}
+			data = append(data, flags)
+			if !mmr {
+				if flags>>1&3 == 0 {
+					data = append(data, 3, 0xff, 0xfd, 0xff, 2, 0xfe, 0xfe, 0xfe)
+				} else {
+					data = append(data, 3, 0xff)
+				}
+			}
+		}
+		if r.Chance(9, 10) {
+			data = append(data, r.Bytes(r.Intn(40))...)
+		} else {
+			data = append(data, bytes.Repeat([]byte{byte(r.Intn(256))}, r.Intn(3000))...)
+		}
+		segment(num, typ, refs, byte(r.Intn(2)+btoi08(r.Chance(9, 10))), data)
+		if typ == 36 || typ == 40 || r.Chance(1, 4) {
+			regions = append(regions, num)
+		}
+		num++
+		if r.Chance(1, 10) {
+			num += uint32(r.Intn(3)) // gaps in the numbering
+		}
+	}
+	if r.Chance(2, 3) {
+		segment(num, 49, nil, 1, nil)
+	}
+	return out
+}
+
+func btoi08(b bool) int {
+	if b {
+		return 1
+	}
+	return 0
+}
+
 // c08CCITTCodes assembles two-dimensional (T.6) rows of cols pixels code by
 // code: rows made of very many short codes above reference lines with few or
 // many changing elements, and all-white rows in between.
@@ -598,6 +728,11 @@ func c08Gen(r *kit.Rand, seeds []c08Seed, quick bool) c08Case {
 			cs.chain = []string{s.filter}
 		}
 	case k < 18 && r.Chance(1, 3):
+		cs.class = "jbig2-segment-level"
+		cs.dict["Filter"] = pdf.Name("JBIG2Decode")
+		cs.body = c08JBIG2Segments(r)
+		cs.chain = []string{"JBIG2Decode"}
+	case k < 18 && r.Chance(1, 2):
 		cs.class = "ccitt-code-level"
 		cols := kit.Pick(r, []int{1 << 15, 1 << 16, 1 << 17})
 		cs.dict["Filter"] = pdf.Name("CCITTFaxDecode")
